@@ -466,4 +466,10 @@ class SuperSpeedStreamInEndpoint(Elaboratable):
                         with m.Else():
                             m.next = "WAIT_FOR_DATA"
 
+                            # If this ACK also requested another packet, we have to turn that request
+                            # down, exactly as we would in WAIT_FOR_DATA.
+                            with m.If(is_in_token):
+                                m.d.comb += handshakes_out.send_nrdy  .eq(1)
+                                m.d.ss   += erdy_required             .eq(1)
+
         return m
